@@ -284,9 +284,16 @@ def abstract(w, obj):
                 if env.pub_bytes(cand) == pt:
                     d = cand
         pub = (pc, d)
-    extra = tuple(sorted(k for k in vars(obj)
-                         if k not in ("curve", "private_key", "public_key")))
-    return (c, priv, pub) + ((extra,) if extra else ())
+    return (c, priv, pub)
+
+
+def hidden(obj):
+    """any further attributes of the object (none today): not part of the
+    model comparison - a refactoring may add private fields - but part of the
+    canonical key of the search, so that states differing only in such a field
+    are both expanded"""
+    return tuple(sorted((k, repr(v)[:80]) for k, v in vars(obj).items()
+                        if k not in ("curve", "private_key", "public_key")))
 
 
 def install_urandom():
@@ -324,11 +331,15 @@ def hist_case(hist):
     w = World.get()
     install_urandom()
     obj, st, bad = replay_history(w, hist)
+    _LAST_HIDDEN[0] = hidden(obj)
     if bad is None:
         return None
     if bad[0] == "event-not-offered":
         return None
     return (bad[0], bad[3], bad[4])
+
+
+_LAST_HIDDEN = [()]
 
 
 def bfs(max_depth):
@@ -337,7 +348,7 @@ def bfs(max_depth):
     w = World.get()
     evs = events()
     init = (None, None, None)
-    seen = {init: []}
+    seen = {(init, ()): []}
     frontier = [[]]
     transitions = 0
     viol = []
@@ -356,7 +367,7 @@ def bfs(max_depth):
                 if bad:
                     viol.append((hist + [ev], bad))
                     continue
-                nst = model_step(w, st, ev)[0]
+                nst = (model_step(w, st, ev)[0], _LAST_HIDDEN[0])
                 if nst not in seen:
                     seen[nst] = hist + [ev]
                     new.append(hist + [ev])
